@@ -67,7 +67,7 @@ static void write_all(int fd, const std::string &s) { size_t o = 0; while (o < s
 
 // alloc profile: configuration context = allocator requests of the fault-free run and workspace boundaries of a sufficient run
 static void compute_alloc_ctx(const Args &a, GenOpts &go, long chunk) {
-    go.alloc_K = 0; go.bounds.clear(); go.lwork_sufficient = 0;
+    go.alloc_K = 0; go.bounds.clear(); go.lwork_sufficient = 0; go.first_call_peak = 0;
     uint64_t first = a.base + (uint64_t)(chunk * a.S);
     Case c0 = gen_case(a.profile, first, go);
     RunnerOpts r0; r0.record = false;
@@ -81,6 +81,8 @@ static void compute_alloc_ctx(const Args &a, GenOpts &go, long chunk) {
         std::sort(b.begin(), b.end()); b.erase(std::unique(b.begin(), b.end()), b.end());
         if (b.size() > 40) { std::vector<long> b2; for (size_t i = 0; i < 39; ++i) b2.push_back(b[i * b.size() / 40]); b2.push_back(b.back()); b = b2; }
         go.bounds = b; go.lwork_sufficient = (mx + mx / 4 + 4096) & ~7L;
+        go.first_call_peak = o2.stack_peaks.size() >= 2 ? o2.stack_peaks[0] : 0;
+        if (o2.stack_peaks.size() >= 2) go.lwork_sufficient = (std::max(mx, go.first_call_peak) * 5 / 4 + 4096) & ~7L;
     }
 }
 
@@ -97,7 +99,7 @@ static bool regen_case(const Args &a, uint64_t seed, Case &out) {
         compute_alloc_ctx(a, go, go.index / a.S);
         Case c = gen_case(a.profile, seed, go);
         write_all(pfd[1], case_to_j(c).dump());
-        _exit(0);
+        { sim::flush_coverage(); _exit(0); }
     }
     close(pfd[1]);
     std::string buf; char tmp[65536]; ssize_t n;
@@ -162,7 +164,7 @@ static Zygote start_zygote(const Args &a) {
                 Outcome o = run_case(probe, ro);
                 ProbeReply r{o.h_obs, 1};
                 if (write(wfd, &r, sizeof r) < 0) {}
-                _exit(0);
+                { sim::flush_coverage(); _exit(0); }
             }
             int st = 0; waitpid(g, &st, 0);
             if (!(WIFEXITED(st) && WEXITSTATUS(st) == 0)) { ProbeReply r{0, 3}; if (write(p2[1], &r, sizeof r) < 0) {} }
@@ -270,7 +272,7 @@ static void worker_main(const Args &a, int slot, long start_idx, bool skip_basel
         skip_baseline = false;
         write_all(wfd, "R " + result_line(c, o) + "\n");
     }
-    _exit(0);
+    { sim::flush_coverage(); _exit(0); }
 }
 
 // ------------------------------------------------------------------ synthesising results for dead children
@@ -345,7 +347,7 @@ static J history_trial(const Args &a, const std::vector<uint64_t> &hist, uint64_
             Outcome o = run_case(c, ro);
             if (last) write_all(pfd[1], "R " + result_line(c, o) + "\n");
         }
-        _exit(0);
+        { sim::flush_coverage(); _exit(0); }
     }
     close(pfd[1]);
     std::string buf, tag, sigfn; int sigc = 0; uint64_t lastB = 0; bool haveB = false, timeout = false; J result; bool have = false;
@@ -414,7 +416,7 @@ J run_forked(const Case &c0, double timeout_s, const std::string &errdir, long b
         RunnerOpts ro; ro.record = true; ro.baseline_steps = baseline_steps;
         Outcome o = run_case(c, ro);
         write_all(pfd[1], "R " + outcome_to_j(c, o, true).dump() + "\n");
-        _exit(0);
+        { sim::flush_coverage(); _exit(0); }
     }
     close(pfd[1]);
     std::string buf; char tmp[65536];
@@ -503,7 +505,7 @@ static int cmd_batch(const Args &a) {
             for (auto &o : slots) if (o.fd >= 0) close(o.fd);
             child_setup(pfd[1], sl.errfile);
             worker_main(a, s, start_idx, skip_baseline, pfd[1]);
-            _exit(0);
+            { sim::flush_coverage(); _exit(0); }
         }
         close(pfd[1]);
         sl.starts.push_back(start_idx);
